@@ -52,21 +52,23 @@ Theorem zero_noise_sq rho : respects rho (ep_defs gen_sq_zero) ->
   sample expm rho gen_sq_zero = interpM rho gen_nf_single_qubit_gate.
 Proof.
   intros R. unfold sample. rewrite (sq_zero_D rho R), (sq_zero_N rho R), interp_zero2, expm_zero2.
-  rewrite !mul_I2_r by (apply leaf2_sq, sq_U_leaf). apply sq_U_is_nf.
+  assert (SU : sq2 (interpM rho (ep_U gen_sq_zero))) by (apply leaf2_sq, sq_U_leaf).
+  rewrite (mul_I2_r _ SU), (mul_I2_r _ SU). apply sq_U_is_nf.
 Qed.
 (* cross-resonance gate at zero noise *)
 Theorem zero_noise_cr rho : respects rho (ep_defs gen_cr_zero) ->
   sample expm rho gen_cr_zero = interpM rho gen_nf_CR.
 Proof.
   intros R. unfold sample. rewrite (cr_zero_D rho R), (cr_zero_N rho R), interp_zero4, expm_zero4.
-  rewrite !mul_I4_r by (apply leaf4_sq, cr_U_leaf). apply cr_U_is_nf.
+  assert (SU : sq4 (interpM rho (ep_U gen_cr_zero))) by (apply leaf4_sq, cr_U_leaf).
+  rewrite (mul_I4_r _ SU), (mul_I4_r _ SU). apply cr_U_is_nf.
 Qed.
 (* idle depolarisation at p = 0 *)
 Theorem zero_noise_depol rho : expm (interpM rho gen_depol_zero_N) = I2.
 Proof. rewrite depol_zero_N, interp_zero2. exact expm_zero2. Qed.
 End ZeroNoise.
 
-(* X and SX are the general rotation at theta = pi, pi/2 (fwd_X, fwd_SX_*); their noise-free matrices agree *)
+(* X and SX are the general rotation at theta = pi, pi/2 (lemmas fwd_X, fwd_SX_rest, fwd_SX_angle); their noise-free matrices agree *)
 Theorem zero_noise_X_SX_matrices rho :
   interpM rho gen_nf_X = interpM (env_of [(vi "theta", EPi)] rho) gen_nf_single_qubit_gate /\
   interpM rho gen_nf_SX = interpM (env_of [(vi "theta", EDiv EPi (EQ (2#1)%Q))] rho) gen_nf_single_qubit_gate.
@@ -151,7 +153,7 @@ Theorem zero_noise_composites rho S :
   (constituents_noise_free gen_comp_ECR_inv S rho -> interpT S rho (cp_tree gen_comp_ECR_inv) = interpM rho gen_nf_ECR_inv).
 Proof.
   destruct comp_products_are_nf as (P1 & P2 & P3 & P4). destruct comp_syms_ok as (O1 & O2 & O3 & O4).
-  repeat split; intros H.
+  split; [|split; [|split]]; intros H.
   - rewrite (interpT_tree_mexpr _ S rho _ O1 H). now apply (mexpr_eq_sound cf).
   - rewrite (interpT_tree_mexpr _ S rho _ O2 H). now apply (mexpr_eq_sound cf).
   - rewrite (interpT_tree_mexpr _ S rho _ O3 H). now apply (mexpr_eq_sound cf).
@@ -171,11 +173,11 @@ Lemma RtoC_Qm1 : RtoC (Q2R (-1#1)) = - (1). Proof. unfold Q2R. simpl. unfold Rto
 
 Lemma unitary2_U rho : unitary2 (interpM rho (ep_U gen_sq_zero)).
 Proof.
-  split. apply leaf2_sq, sq_U_leaf. pose proof (proj1 U_unitary rho) as H. simpl interpM in H. rewrite interp_id2 in H. exact H.
+  split. apply leaf2_sq, sq_U_leaf. pose proof (proj1 U_unitary rho) as H. cbn [interpM] in H. rewrite interp_id2 in H. exact H.
 Qed.
 Lemma unitary4_U rho : unitary4 (interpM rho (ep_U gen_cr_zero)).
 Proof.
-  split. apply leaf4_sq, cr_U_leaf. pose proof (proj2 U_unitary rho) as H. simpl interpM in H. rewrite interp_id4 in H. exact H.
+  split. apply leaf4_sq, cr_U_leaf. pose proof (proj2 U_unitary rho) as H. cbn [interpM] in H. rewrite interp_id4 in H. exact H.
 Qed.
 
 (* every decision path of the single-qubit factory with T1 == 0 samples a unitary matrix, for all angles, phases,
@@ -192,7 +194,7 @@ Proof.
   rewrite mul_I2_r by (apply leaf2_sq, sq_U_leaf).
   apply unitary2_mul. apply unitary2_U.
   apply expm_antiherm2. now apply leaf2_sq.
-  pose proof (mexpr_eq_sound cf _ _ AN rho) as H. simpl interpM in H. rewrite RtoC_Qm1 in H. exact H.
+  pose proof (mexpr_eq_sound cf _ _ AN rho) as H. cbn [interpM interpC] in H. rewrite RtoC_Qm1 in H. exact H.
 Qed.
 Theorem unitary_cr_T1_off rho p : In p gen_cr_paths -> t1_off_cr p = true -> is_leaf4 (ep_N p) = true ->
   unitary4 (sample expm rho p).
@@ -206,7 +208,7 @@ Proof.
   rewrite mul_I4_r by (apply leaf4_sq, cr_U_leaf).
   apply unitary4_mul. apply unitary4_U.
   apply expm_antiherm4. now apply leaf4_sq.
-  pose proof (mexpr_eq_sound cf _ _ AN rho) as H. simpl interpM in H. rewrite RtoC_Qm1 in H. exact H.
+  pose proof (mexpr_eq_sound cf _ _ AN rho) as H. cbn [interpM interpC] in H. rewrite RtoC_Qm1 in H. exact H.
 Qed.
 Lemma paths_N_leaves : forallb (fun p => is_leaf2 (ep_N p)) gen_sq_paths = true /\ forallb (fun p => is_leaf4 (ep_N p)) gen_cr_paths = true
   /\ is_leaf2 gen_depol_N = true.
@@ -215,12 +217,12 @@ Theorem unitary_depol rho : unitary2 (expm (interpM rho gen_depol_N)).
 Proof.
   destruct antihermitian_when_T1_off as (_ & _ & A). destruct paths_N_leaves as (_ & _ & L).
   apply expm_antiherm2. now apply leaf2_sq.
-  pose proof (mexpr_eq_sound cf _ _ A rho) as H. simpl interpM in H. rewrite RtoC_Qm1 in H. exact H.
+  pose proof (mexpr_eq_sound cf _ _ A rho) as H. cbn [interpM interpC] in H. rewrite RtoC_Qm1 in H. exact H.
 Qed.
 Theorem unitary_bitflip rho : unitary2 (interpM rho gen_bitflip_G).
 Proof.
   split. apply leaf2_sq. vm_compute. reflexivity.
-  pose proof (bitflip_unitary rho) as H. simpl interpM in H. rewrite interp_id2 in H. exact H.
+  pose proof (bitflip_unitary rho) as H. cbn [interpM] in H. rewrite interp_id2 in H. exact H.
 Qed.
 End Unitary.
 
@@ -275,8 +277,8 @@ Proof. vm_compute. repeat split. Qed.
 Lemma scales_unit_sound cp rho : scales_unit cp = true ->
   Forall (fun c => interpC rho c * Cconj (interpC rho c) = 1) (tree_scales (cp_tree cp)).
 Proof.
-  unfold scales_unit. intros H. rewrite forallb_forall in H. apply Forall_forall. intros c Hc.
-  pose proof (expr_eq_sound cf _ _ (H c Hc) rho) as E. simpl in E. rewrite RtoC_Q1 in E. exact E.
+  unfold scales_unit. intros Hs. rewrite forallb_forall in Hs. apply Forall_forall. intros c Hc.
+  pose proof (expr_eq_sound cf _ _ (Hs c Hc) rho) as E. cbn [interpC] in E. rewrite RtoC_Q1 in E. exact E.
 Qed.
 
 Theorem unitary_composites rho S :
@@ -286,7 +288,7 @@ Theorem unitary_composites rho S :
   ((forall k, unitaryd (comp_dimf gen_comp_ECR_inv k) (S k)) -> unitary4 (interpT S rho (cp_tree gen_comp_ECR_inv))).
 Proof.
   destruct comp_trees_typed as ((D1 & U1) & (D2 & U2) & (D3 & U3) & (D4 & U4)).
-  repeat split; intros H.
+  split; [|split; [|split]]; intros H.
   - apply (unitary_tree S rho _ _ 4%nat D1 H). now apply scales_unit_sound.
   - apply (unitary_tree S rho _ _ 4%nat D2 H). now apply scales_unit_sound.
   - apply (unitary_tree S rho _ _ 4%nat D3 H). now apply scales_unit_sound.
